@@ -13,6 +13,7 @@ pub const RULE: &str = "generated maps: object lines sorted and unsorted (with m
 #[derive(Clone)]
 pub struct Map {
     pub mode: u8,
+    pub general_extra: String,
     pub slider_mult: String,
     pub breaks: Vec<(i64, i64)>,
     pub timing: Vec<(i64, String, u8, i32, bool, u8)>, // time, beat_len text, bank, volume, timing_change, custom
@@ -37,7 +38,7 @@ pub struct Obj {
 impl Map {
     pub fn text(&self, shift: i64) -> String {
         let mut s = String::from("osu file format v14\n\n[General]\n");
-        s += &format!("Mode: {}\n\n[Difficulty]\nSliderMultiplier:{}\n\n[Events]\n", self.mode, self.slider_mult);
+        s += &format!("Mode: {}\n{}\n[Difficulty]\nSliderMultiplier:{}\n\n[Events]\n", self.mode, self.general_extra, self.slider_mult);
         for (a, b) in &self.breaks {
             s += &format!("2,{},{}\n", a + shift, b + shift);
         }
@@ -126,14 +127,16 @@ pub fn gen_map(r: &mut Rng, big: bool) -> Map {
     let mut breaks = vec![];
     let mut bt = r.range(-2000, tmax / 2);
     for _ in 0..nb {
-        let len = *r.pick(&[100i64, 400, 649, 650, 2000, 5000]);
+        // zero-length breaks (`2,2000,2000`) and reversed lines (end before start: clamped up to the start) are legal
+        let len = *r.pick(&[100i64, 400, 649, 650, 2000, 5000, 0, 0, -300, 1]);
         breaks.push((bt, bt + len));
-        bt += len + r.range(0, tmax / 2);
+        bt += len.max(0) + r.range(0, tmax / 2);
     }
     if r.chance(1, 4) {
         breaks.reverse();
     }
-    let nt = r.range(1, 6);
+    // sometimes no timing-point line at all: every lookup then falls back to the defaults
+    let nt = if r.chance(1, 6) { 0 } else { r.range(1, 6) };
     let mut timing = vec![];
     let mut tt = r.range(-1000, 500);
     for i in 0..nt {
@@ -152,7 +155,13 @@ pub fn gen_map(r: &mut Rng, big: bool) -> Map {
             tt += r.range(0, tmax / 3);
         }
     }
-    Map { mode, slider_mult: r.pick(&["1.4", "0.4", "3.6", "2", "1.85"]).to_string(), breaks, timing, objects }
+    let general_extra = match r.below(4) {
+        0 => String::new(),
+        1 => "SampleSet: Soft\nSampleVolume: 40\n".to_string(),
+        2 => "SampleSet: Drum\n".to_string(),
+        _ => "SampleVolume: 5\n".to_string(),
+    };
+    Map { mode, general_extra, slider_mult: r.pick(&["1.4", "0.4", "3.6", "2", "1.85"]).to_string(), breaks, timing, objects }
 }
 
 fn decode(text: &str) -> Option<HitObjects> {
@@ -396,9 +405,110 @@ pub fn check_shift(m: &Map, k: i64, out: &mut Out) {
     cmp_points!(sample_points, ());
 }
 
+
+// ---------------------------------------------------------------------------
+// fractional times: D20.  With non-integer times the decimal shift t -> t + k
+// does not commute with rounding: fl(parse(t) + 5) can fall on the other side
+// of parse(t + 5) after the shift, so an object whose end lies EXACTLY 5 ms (in
+// decimal arithmetic) before a sample point may or may not see that point.
+// Times are kept in hundredths of a millisecond so the tie can be decided exactly.
+
+fn cs(v: i64) -> String {
+    format!("{}{}.{:02}", if v < 0 { "-" } else { "" }, v.abs() / 100, v.abs() % 100)
+}
+
+pub struct FracMap {
+    pub objs: Vec<(i64, u8, i64)>, // start (hundredths), kind 0 circle / 2 spinner / 3 hold, end (hundredths)
+    pub samples: Vec<(i64, i32)>,  // sample point time (hundredths), volume
+}
+
+impl FracMap {
+    pub fn text(&self, shift_ms: i64) -> String {
+        let k = shift_ms * 100;
+        let mut s = String::from("osu file format v14\n\n[General]\nMode: 3\n\n[TimingPoints]\n");
+        s += &format!("{},500,4,1,0,100,1,0\n", cs(-10_000_000 + k));
+        for (t, v) in &self.samples {
+            s += &format!("{},-100,4,1,0,{},0,0\n", cs(t + k), v);
+        }
+        s += "\n[HitObjects]\n";
+        for (t, kind, e) in &self.objs {
+            match kind {
+                0 => s += &format!("100,100,{},1,0,0:0:0:0:\n", cs(t + k)),
+                2 => s += &format!("256,192,{},8,0,{},0:0:0:0:\n", cs(t + k), cs(e + k)),
+                _ => s += &format!("100,192,{},128,0,{}:0:0:0:0:\n", cs(t + k), cs(e + k)),
+            }
+        }
+        s
+    }
+    /// some object's end lies exactly 5 ms before a sample point (decimal arithmetic)
+    pub fn has_exact_tie(&self) -> bool {
+        self.objs.iter().any(|(t, kind, e)| {
+            let end = if *kind == 0 { *t } else { *e };
+            self.samples.iter().any(|(st, _)| *st == end + 500)
+        })
+    }
+    pub fn fractional(&self) -> bool {
+        self.objs.iter().any(|(t, _, e)| t % 100 != 0 || e % 100 != 0) || self.samples.iter().any(|(t, _)| t % 100 != 0)
+    }
+}
+
+pub fn gen_frac_map(r: &mut Rng) -> FracMap {
+    let n = r.range(1, 5) as usize;
+    let mut objs = vec![];
+    let mut t = r.range(0, 200_000);
+    for _ in 0..n {
+        let kind = *r.pick(&[0u8, 0, 2, 3]);
+        let e = t + r.range(1, 300_000);
+        objs.push((t, kind, e));
+        t = e + r.range(1, 200_000);
+    }
+    let mut samples = vec![];
+    let mut vols = [37, 61, 12, 88, 45, 73, 29, 54];
+    vols.rotate_left(r.below(8));
+    for (i, (t, kind, e)) in objs.iter().enumerate() {
+        let end = if *kind == 0 { *t } else { *e };
+        let off = *r.pick(&[500i64, 500, 499, 501, 400, 600]);
+        samples.push((end + off, vols[i % 8]));
+    }
+    samples.sort();
+    samples.dedup_by_key(|x| x.0);
+    FracMap { objs, samples }
+}
+
+pub fn check_shift_frac(m: &FracMap, k: i64, out: &mut Out) {
+    let (Some(a), Some(b)) = (decode(&m.text(0)), decode(&m.text(k))) else { return };
+    out.oracle_checks += 1;
+    let desc = format!("shift={} text={:?}", k, m.text(0));
+    let class = if m.fractional() && m.has_exact_tie() { "D20" } else { "" };
+    if a.hit_objects.len() != b.hit_objects.len() {
+        out.fail("", &desc, "shifted file has a different number of objects");
+        return;
+    }
+    for (x, y) in a.hit_objects.iter().zip(b.hit_objects.iter()) {
+        if (x.start_time + k as f64 - y.start_time).abs() > 1e-6 {
+            out.fail("", &desc, &format!("start time {} + {} != {}", x.start_time, k, y.start_time));
+            return;
+        }
+        if x.samples != y.samples {
+            out.fail(class, &desc, &format!("samples of the object at {} change with the shift: {:?} vs {:?}", x.start_time, x.samples, y.samples));
+            return;
+        }
+    }
+}
+
 pub fn generate(tier: &str, seed: u64, out: &mut Out) {
     let mut r = Rng::new(seed ^ 0xC15);
     let n = if tier == "thorough" { 6000 } else { 500 };
+    // fractional times (hundredths of a millisecond), sample points at / next to end + 5
+    for i in 0..n * 4 {
+        let m = gen_frac_map(&mut r);
+        let k = *r.pick(&[1i64, 7, 1000, 123_456, -3, -1_000_000, 999_999]);
+        check_shift_frac(&m, k, out);
+        out.count(if m.fractional() { "frac.fractional" } else { "frac.integer" });
+        if i % 8 == 0 {
+            decoders::model_case(7, &m.text(0), out, "c15-frac");
+        }
+    }
     for i in 0..n {
         let m = gen_map(&mut r, i % 4 == 0);
         check_map(&m, out);
